@@ -9,3 +9,34 @@ CLAIMS["C07"] = (
     "Assumed: pyvc encoding of Python, z3/cvc5, CPython struct/bytes, UTF-16 codec facts, CRC32 as an uninterpreted function; acceptance by an independent reader *program* is differential testing (another family) and is not claimed; whole-header composition is argued from the per-function contracts (DESIGN.md 7).",
     "DESIGN.md 7 (C07)",
 )
+
+CLAIMS["C04"] = (
+    "'No normal exit without the checksum comparison' obligations, proved on every path of the real functions: SignatureHeader._read (start-header CRC over bytes 12..31), calculate_crc32 (= CRC32 for every block size), Worker._extract_single and Worker._check (every delivered or skipped non-empty member: regular, symlink, junction), Worker.decompress (folder CRC consulted at folder end; delivers exactly the declared size), SevenZipFile.test/_read_digest (each defined pack digest compared at the right offset over exactly its pack size).",
+    "Assumed: CRC32 as an uninterpreted function with the streaming homomorphism; its detection power (what a mismatch reveals) and the codecs' behaviour on damaged input are assumptions; orchestration methods are verified in abstract mode (opaque objects, stable-attribute and frame assumptions listed in the evidence). Bit-flip campaigns are fault enumeration (another family) and are not claimed.",
+    "DESIGN.md 7 (C04)",
+)
+CLAIMS["C09"] = (
+    "Skip-offset invariant of Worker._extract_single proved for all member lists: bytes consumed so far plus the sizes of the pending unselected members equals the offset of the current member, so every selected member is decoded from its own offset with its declared size; Worker._check consumes exactly the pending members; remove_trailing_slash and the selection predicate of _extract are covered by their contracts where present in the evidence.",
+    "Abstract mode for the orchestration (opaque ArchiveFile/pathlib objects with stable attributes); the decoder consumes `size` bytes per call (Worker.decompress contract). Filesystem side only as sink guards (C03).",
+    "DESIGN.md 7 (C09)",
+)
+CLAIMS["C18"] = (
+    "Ghost event-trace contracts proved on the sequential code: per processed member exactly one start event first and one end event last carrying the member's name and size (Worker._extract_single); update events carry the bytes decoded since the last update and sum to the member size (Worker.decompress loop invariant).",
+    "Interleavings of worker threads with the reporter thread and the 1 s join timeout are outside this family (no thread semantics in any verifier available here) and are excluded from the claim.",
+    "DESIGN.md 7 (C18)",
+)
+CLAIMS["C05"] = (
+    "Termination (loop variants) and progress obligations proved per function of the read path: read_boolean/read_utf16 (bounded by count / MAX_LENGTH), read_uint64 and fixed-width readers (strict progress), Worker.decompress (lexicographic variant: bytes to deliver, packed bytes left, stalls allowed), SevenZipFile._read_digest; short reads are modelled faithfully and ordinary exceptions are allowed exits.",
+    "Wall-clock/RSS bounds and crashes inside C extensions are not contracts; allocation-size obligations of the header parser are reported as known findings where refuted (see known_findings.json).",
+    "DESIGN.md 7 (C05)",
+)
+CLAIMS["C14"] = (
+    "Placeholder signature header = (1,2,3,4) proved byte-exactly on SignatureHeader._write_skeleton, final signature header layout and CRC proved on calccrc/write (written at offset 0), reader proved to accept only a matching start-header CRC, lemma: the placeholder bytes can never satisfy the reader's postcondition.",
+    "Torn writes inside the final 32 bytes, dropped/reordered buffered blocks and stale-header collisions depend on CRC32 collision freeness and a storage model: excluded (not decidable in this family).",
+    "DESIGN.md 7 (C14)",
+)
+CLAIMS["C20"] = (
+    "Buffer-length contracts: Worker.decompress requests at most min(remaining, memory limit) bytes per step and every non-empty chunk is written out before the next request (proved for all sizes).",
+    "Peak RSS is a measurement, not a contract; decoders that ignore max_length are covered only through the assumed decoder contract; excluded parts are listed in the evidence.",
+    "DESIGN.md 7 (C20)",
+)
